@@ -778,6 +778,8 @@ class SymExec:
             except _Break:
                 return
         it = self.ev(st.iter, fr)
+        if isinstance(it, tuple) and it[:1] == ('new',) and len(it) > 2 and it[1] in self.facts.classes and self._namedtuple_fields(it[1]) is not None:
+            it = ('tuple',) + tuple(v_ for _, v_ in it[2])        # iterating a NamedTuple: its fields in order
         if isinstance(it, tuple) and it and it[0] == 'tuple' and len(it) > 1 and \
                 not any(isinstance(x, tuple) and x and x[0] == 'star' for x in it[1:]):
             it = ListVal(list(it[1:]), self.fresh())
@@ -1140,7 +1142,34 @@ class SymExec:
                             return [(x[1], x[2]) for x in v[1:]]
                         break
                     f = f.outer
-            return [self.facts.resolve_expr(fr.module, e)]
+            r0 = self.facts.resolve_expr(fr.module, e)
+            if r0[0] == 'modvar':
+                # a module-level tuple of exception classes (`_ERRORS = (TypeError, ParserError)`), also built with `+`
+                mod_, _, var_ = r0[1].rpartition('.')
+                m_ = self.facts.modules.get(mod_)
+                if m_ is not None and len(m_.assigns.get(var_, ())) == 1 and m_.assigns[var_][0] is not None:
+                    def parts(n):
+                        if isinstance(n, ast.Tuple):
+                            return [x for el in n.elts for x in parts(el)] if all(parts(el) is not None for el in n.elts) else None
+                        if isinstance(n, ast.BinOp) and isinstance(n.op, ast.Add):
+                            a_, b_ = parts(n.left), parts(n.right)
+                            return a_ + b_ if a_ is not None and b_ is not None else None
+                        if isinstance(n, (ast.Name, ast.Attribute)):
+                            return one_in(m_, n, 1)
+                        return None
+                    got = parts(m_.assigns[var_][0])
+                    if got:
+                        return got
+            return [r0]
+
+        def one_in(m_, n, depth):
+            r_ = self.facts.resolve_expr(m_, n)
+            if r_[0] == 'modvar':
+                mod2, _, var2 = r_[1].rpartition('.')
+                m2 = self.facts.modules.get(mod2)
+                if m2 is not None and len(m2.assigns.get(var2, ())) == 1 and isinstance(m2.assigns[var2][0], ast.Tuple) and depth < 4:
+                    return [x for el in m2.assigns[var2][0].elts for x in one_in(m2, el, depth + 1)]
+            return [r_]
         out = []
         for h in st.handlers:
             if h.type is None:
@@ -1196,7 +1225,7 @@ class SymExec:
                         except (_Signal, Unrecognised):
                             pass
                 del self.events[n_ev:]
-                self.emit('exc_edge', st, types=types, handler=h, subs=tuple(subs))
+                self.emit('exc_edge', st, types=types, handler=h, subs=tuple(subs), earlier=tuple(t_ for j_ in range(k - 1) for t_ in descr[j_][0]))
                 run_handler(h, exc)
             else:
                 self.ctx.append(('try', st, descr))
@@ -1677,7 +1706,8 @@ class SymExec:
             r0 = self.facts.resolve_expr(m, node0.func)
             nt = self._namedtuple_fields(r0[1]) if r0[0] == 'cls' else None
             if nt is not None and all(isinstance(d, ast.Constant) for _, d in nt):
-                node0 = ast.Tuple(elts=[d for _, d in nt], ctx=ast.Load())      # NT(): the tuple of the declared defaults
+                cache[q] = None
+                return None             # NT(): a record of the declared defaults (see _import_time_const)
         if isinstance(node0, ast.Call) and isinstance(node0.func, ast.Name) and node0.func.id == 'frozenset' and len(node0.args) == 1 \
                 and not node0.keywords and isinstance(node0.args[0], (ast.Tuple, ast.List, ast.Set)) \
                 and self.facts.resolve_name(m, 'frozenset')[0] == 'builtin':
@@ -1769,7 +1799,14 @@ class SymExec:
                 nt = self._namedtuple_fields(b[2])
                 if nt is not None:
                     return ('tuple',) + tuple(('const', n_) for n_, _ in nt)
+            if b[1] == 'cls' and b[2] in self.facts.classes:
+                cv_ = self._class_attr(b[2], name, True)
+                if cv_ is not None:
+                    return cv_          # class-level constant read through the class object
             r = self.facts.attr_of((b[1], b[2]), name)
+            if b[1] == 'cls' and r[0] == 'fn' and r[1] in self.facts.functions and r[1].rsplit('.', 1)[0] != b[2] \
+                    and _has_decorator(self.facts.functions[r[1]].node, 'classmethod'):
+                return ('attr', b, name)        # an inherited classmethod called through a subclass: cls is that subclass
             if r[0] != 'unbound':
                 return self.ref(r)
             return ('attr', b, name)
@@ -1889,6 +1926,9 @@ class SymExec:
         if isinstance(b, tuple) and b and b[0] == 'tuple' and is_const(i) and isinstance(i[1], int) \
                 and -(len(b) - 1) <= i[1] < len(b) - 1:
             return b[1:][i[1]]
+        if isinstance(b, tuple) and b[:1] == ('new',) and len(b) > 2 and is_const(i) and isinstance(i[1], int) and not isinstance(i[1], bool) \
+                and self._namedtuple_fields(b[1]) is not None and -len(b[2]) <= i[1] < len(b[2]):
+            return b[2][i[1]][1]            # a NamedTuple indexed by position
         if isinstance(b, DictVal) and is_const(i) and all(it[0] != 'dstar' and is_const(freeze(it[0])) for it in b.items):
             for k, v in b.items:
                 if freeze(k) == i:
@@ -2014,7 +2054,7 @@ class SymExec:
                 found = it[1]
         if found is None:
             return (False, None)
-        fv = freeze(found) if not isinstance(found, Closure) else found
+        fv = keep(found) if not isinstance(found, Closure) else found         # records holding closures stay callable
         if isinstance(fv, tuple) and fv[:2] == ('ref', 'fnraw'):
             fv = ('ref', 'fn', fv[2])
         return (True, fv)
@@ -2156,6 +2196,12 @@ class SymExec:
                     return ('const', l[1] - r[1])
                 if op == '*' and isinstance(l[1], int) and isinstance(r[1], int):
                     return ('const', l[1] * r[1])
+                if op == '*' and not isinstance(l[1], bool) and not isinstance(r[1], bool) and (
+                        (isinstance(l[1], str) and isinstance(r[1], int)) or (isinstance(l[1], int) and isinstance(r[1], str))):
+                    n_ = r[1] if isinstance(r[1], int) else l[1]
+                    s_ = l[1] if isinstance(l[1], str) else r[1]
+                    if 0 <= n_ * len(s_) <= 400:
+                        return ('const', s_ * n_)           # ' ' * len(name): layout of a generated docstring
             except Exception:
                 pass
         if op == '%' and is_const(l) and isinstance(l[1], str):
@@ -2842,6 +2888,9 @@ class SymExec:
                     return list(a.elts)
                 if isinstance(a, tuple) and a and a[0] == 'tuple' and not any(isinstance(x, tuple) and x and x[0] == 'star' for x in a[1:]):
                     return list(a[1:])
+                if isinstance(a, tuple) and a[:1] == ('new',) and len(a) > 2 and a[1] in self.facts.classes and self._namedtuple_fields(a[1]) is not None \
+                        and not any(isinstance(v_, tuple) and v_[:1] == ('default',) for _, v_ in a[2]):
+                    return [v_ for _, v_ in a[2]]          # a NamedTuple record: its fields in order
                 return None
             # iteration helpers over a known spine give a known spine (they are only ever consumed by loops here)
             if name == 'reversed' and len(args) == 1 and not kwargs and spine(args[0]) is not None:
@@ -2947,6 +2996,10 @@ class SymExec:
             maps_ = ListVal([keep(a) for a in args] if args else [DictVal([], self.fresh())], self.fresh())
             self.heap.setdefault(eid_, {})['maps'] = maps_
             return ('new', 'collections.ChainMap', (('maps', ('list',)),), eid_)
+        if isinstance(ff, tuple) and ff[:1] == ('attr',) and ff[2] == '_asdict' and not args and not kwargs and isinstance(func, tuple) \
+                and isinstance(func[1], tuple) and func[1][:1] == ('new',) and self._namedtuple_fields(func[1][1]) is not None:
+            # NamedTuple._asdict(): field name -> value, in declaration order
+            return DictVal([(('const', n_), keep(v_)) for n_, v_ in func[1][2]], self.fresh())
         if ff == ('ref', 'ext', 'typing.cast') and len(args) == 2 and not kwargs:
             return args[1]                      # typing.cast(T, x) is x
         if ff in (('ref', 'ext', 'typing.assert_type'), ('ref', 'ext', 'typing.reveal_type')) and args and not kwargs:
@@ -3435,7 +3488,8 @@ def _ex_Call(self: SymExec, e, fr):
         recv = self.ev(e.func.value, fr)
         if isinstance(recv, GlobalsVal):
             # globals().update({...}, k=v): module-level bindings made from a dict whose keys are all known
-            for a in self._elts(e.args, fr):
+            for a in [self._comp(x_, fr, 'list') if isinstance(x_, ast.GeneratorExp) else self.ev(x_, fr) for x_ in e.args]:
+                # (a generator of (name, value) pairs is consumed by update() at once: the list it yields)
                 if isinstance(a, ListVal) and a.concrete() and all(isinstance(x, tuple) and x[:1] == ('tuple',) and len(x) == 3 for x in a.elts):
                     a = DictVal([(x[1], x[2]) for x in a.elts], self.fresh())
                 if not isinstance(a, DictVal) or any(i[0] == 'dstar' or not (is_const(freeze(i[0])) and isinstance(freeze(i[0])[1], str)) for i in a.items):
@@ -3529,7 +3583,10 @@ def _ex_Call(self: SymExec, e, fr):
                       kwargs=(), resolved=None, handlers=self._handlers(), result=('const', None), inlined=False,
                       on_fresh_list=True, spine_known=ok)
             if not ok:
-                recv.elts.append(('star', ('unknown', 'after-%s' % e.func.attr)))
+                if e.func.attr == 'extend' and len(args) == 1 and not isinstance(args[0], (ProdVal, Closure)):
+                    recv.elts.append(('star', ('unknown', 'after-extend', freeze(args[0]))))      # some elements of that iterable
+                else:
+                    recv.elts.append(('star', ('unknown', 'after-%s' % e.func.attr)))
             return ('const', None)
         # fall through: evaluate normally (receiver evaluated twice is harmless: no events for names)
         func = self.attr(recv, e.func.attr, e.func, fr)
